@@ -417,7 +417,33 @@ def rule_PL5(ctx, tier):
             rr.ok("%s == %s" % (shortfn(fn), sorted(exp)), sample={"rule": "PL5", "predicate": fn, "table": t})
         else:
             rr.fail("status-predicate:%s=%s" % (shortfn(fn), ",".join(sorted(good))), "`%s` is true for %s; documented: %s" % (shortfn(fn), sorted(good), sorted(exp)))
-    rr.require_floor(9, "PL5 instances")
+    # every hand-over to the retry manager excludes misbehaving towers: at each send site some TowerStatus
+    # predicate fact rules the Misbehaving variant out (decided with the predicate tables above)
+    tables = {fn.split("::")[-1]: enum_pred_table(ctx, fn) for fn in want}
+
+    def excludes_misbehaving(body, bb):
+        for f in facts_at(ctx, body, bb):
+            if f[0] != "truth":
+                continue
+            for name, t in tables.items():
+                if t and has_call(f[1], "TowerStatus::" + name) and t.get("Misbehaving") is not None and t["Misbehaving"] != f[2]:
+                    return "%s == %s" % (name, f[2])
+        return None
+    feeds = []
+    for fid in ("watchtower_client::on_commitment_revocation::{closure#0}", "watchtower_client::retry_tower::{closure#0}", WT + "with_proxy::{closure#0}"):
+        fb = P.require(fid)
+        for bb in sites(fb, "watchtower_client::send_to_retrier") + sites_containing(fb, "UnboundedSender", "::send"):
+            feeds.append((fb, bb))
+    for fb, bb in feeds:
+        why = excludes_misbehaving(fb, bb)
+        idle_wake = "RevocationData::None" in og.show(arg_origin(ctx, fb, bb, 1)) if "UnboundedSender" in (call_target(fb.term(bb)) or "") else False
+        if why:
+            rr.ok("feed@%s excludes misbehaving towers (%s)" % (shortfn(fb.id), why), sample={"rule": "PL5", "feed site": fb.id, "guard": why})
+        elif idle_wake:
+            rr.ok("feed@%s wakes an existing idle retrier only" % shortfn(fb.id), nontrivial=False)
+        else:
+            rr.fail("misbehaving-tower-fed:%s" % shortfn(fb.id), "`%s` hands a tower to the retry manager on a path where nothing excludes a tower already proven misbehaving: after a restart (or a later revocation) appointments are sent to it again" % shortfn(fb.id), where=fb.line_of(bb))
+    rr.require_floor(14, "PL5 instances")
     return rr
 
 
